@@ -26,6 +26,7 @@ func init() {
 		Run:  c04Budget})
 	register(&Rule{ID: "C04.follow", Floor: 2,
 		Text: "the walk returns a symbolic link as the found node only in no-follow mode (slmLstat), and after an absolute link target it restarts from the root the walk started from (the view's / volume's root), not from another root",
+		Also: []string{"C17", "C11"},
 		Run:  c04Follow})
 	register(&Rule{ID: "C04.store", Floor: 2,
 		Text: "Symlink stores Clean(oldname) as the link target and Readlink returns exactly that stored field",
